@@ -1,7 +1,7 @@
 (* C10 - unknown fields never disturb known ones; captured ones are forwarded intact. *)
 From Coq Require Import List ZArith Bool.
 From Pico Require Import Base.Res Base.Mach Wire.Wire Schema.Types Schema.Scalar Ref.Ref
-  Wire.VarintProofs Wire.WireProofs Dec.Dec Dec.ReaderProofs Dec.SafetyProofs.
+  Wire.VarintProofs Wire.WireProofs Dec.Dec Dec.ReaderProofs Dec.SafetyProofs Schema.Gen Schema.Interp Schema.TDec.
 Import ListNotations.
 Open Scope Z_scope.
 
@@ -19,9 +19,22 @@ Proof.
   change (VarintType =? VarintType) with true. cbv iota. rewrite consume_spec_varint by exact H. reflexivity.
 Qed.
 
-(* PARTIAL. The whole-message statements (known fields unchanged by injected unknown fields of any
-   wire type incl. nested groups; captured bytes = the unknown fields in order; forwarding through
-   a narrow schema) are decided per run on the unknown-injection rewrites and on captured bytes. *)
+(* Whole messages. In the reference decoder a token whose number no field has leaves every known field as it was,
+   and (only) a capturing message appends it - canonical tag, then the value bytes exactly as in the input - to
+   XXX_unrecognized, in input order; Unmarshal computes that decoder's result on every input (C02 T_dec), so
+   the same holds of the generated code. *)
+Theorem C10_unknown_token : forall s rec m tok fs un, find_field m (t_num tok) = None ->
+  apply_token s rec m tok (fs, un) =
+  Some (fs, if m_capture m then un ++ spec_tag (t_num tok) (t_wt tok) ++ t_raw tok else un).
+Proof. intros s rec m tok fs un H. unfold apply_token. rewrite H. cbn [fst snd]. destruct (m_capture m); reflexivity. Qed.
+Theorem C10_unmarshal_is_reference_decoder : forall s progs idx data t0,
+  gen_all s = GOk progs -> tdec_applies s = true -> Dec.SafetyProofs.bytes_ok data ->
+  let r := pico_unmarshal progs idx data t0 in
+  match ref_decode (S (S (S (length data)))) s idx data t0 with
+  | Some t'' => fst r = None /\ snd r = t''
+  | None => fst r <> None
+  end.
+Proof. exact T_dec_b. Qed.
 
 Example C10_nonvacuous : consume_field_value 5 StartGroupType [8; 1; 44] = 3 /\ consume_field_value 5 StartGroupType [8; 1; 52] = errEndGroup.
 Proof. split; vm_compute; reflexivity. Qed.
@@ -29,3 +42,5 @@ Proof. split; vm_compute; reflexivity. Qed.
 Print Assumptions C10_known_untouched.
 Print Assumptions C10_retag.
 Print Assumptions C10_skip_varint.
+Print Assumptions C10_unknown_token.
+Print Assumptions C10_unmarshal_is_reference_decoder.
